@@ -143,7 +143,8 @@ theorem C17_equal_sound (a b : ResView) (ha : a.keyed) (hb : b.keyed) (h : equal
       (sortOn (fun a : Attr => a.name) a.attrs.vals)[i]? = some x →
       (sortOn (fun a : Attr => a.name) b.attrs.vals)[i]? = some y →
       deepEqual (a.get x.name) (b.get y.name) = true ∨
-        ((a.get x.name).isNilValue = true ∧ (b.get y.name).isNilValue = true)) ∧
+        ((a.get x.name).isNilValue = true ∧ (b.get y.name).isNilValue = true) ∨
+        ((a.get x.name).isEmptyBytes = true ∧ (b.get y.name).isEmptyBytes = true)) ∧
     (∀ n ∈ a.rels.keys, ∃ ra rb, a.rels.get? n = some ra ∧ b.rels.get? n = some rb ∧
       ra.toOne = rb.toOne ∧ a.get n = b.get n ∧
       (if ra.toOne then ∃ id, a.get n = .val .string (.s id) else ∃ l, a.get n = .strs l)) := by
@@ -171,12 +172,19 @@ theorem C17_equal_sound (a b : ResView) (ha : a.keyed) (hb : b.keyed) (h : equal
     have hm := mem_zip_of_getElem? hx hy
     rw [Bool.not_eq_true, List.any_eq_false] at h3
     have := h3 (x, y) hm
-    simp only [Bool.and_eq_true, Bool.not_eq_true', not_and, Bool.not_eq_false] at this
-    by_cases hd : deepEqual (a.get x.name) (b.get y.name) = true
-    · exact .inl hd
-    · right
-      have := this (by simpa using hd)
-      simpa using this
+    unfold attrTest at this
+    simp only [] at this
+    cases hd : deepEqual (a.get x.name) (b.get y.name) with
+    | true => exact .inl rfl
+    | false =>
+      right
+      rw [hd] at this
+      cases hn1 : (a.get x.name).isNilValue && (b.get y.name).isNilValue with
+      | true => left; simpa using hn1
+      | false =>
+        right
+        rw [hn1] at this
+        simpa using this
   · intro n hn
     obtain ⟨p, hp, e⟩ := List.mem_map.1 hn
     have hp2 : p.2 ∈ sortOn (fun r : Rel => r.fromName) a.rels.vals :=
